@@ -46,7 +46,7 @@ def Scope.ofName (s : String) : Option Scope :=
 inductive Err where
   | configuration | invalidValue | numericOutOfRange | constraintViolation
   | internalServer | keyError | typeError | attributeError | valueError
-  | runtimeError | outOfDomain
+  | runtimeError | notSerializable | outOfDomain
 deriving DecidableEq, Repr
 
 def Err.name : Err → String
@@ -55,7 +55,9 @@ def Err.name : Err → String
   | .constraintViolation => "ConstraintViolationError"
   | .internalServer => "InternalServerError" | .keyError => "KeyError"
   | .typeError => "TypeError" | .attributeError => "AttributeError"
-  | .valueError => "ValueError" | .runtimeError => "RuntimeError" | .outOfDomain => "bad-op"
+  | .valueError => "ValueError" | .runtimeError => "RuntimeError"
+  | .notSerializable => "TypeError"      -- raised by json.dumps, after the dict has been built
+  | .outOfDomain => "bad-op"
 
 /-- JSON-like input / output values (`Operation.value`, `json.loads` results). -/
 inductive JV where
@@ -642,7 +644,7 @@ def rawToJson : Scalar → Except Err JV
   | .bool b => .ok (.bool b)
   | .int i => .ok (.int i)
   | .str s => .ok (.str s)
-  | _ => .error .typeError          -- json.dumps: not JSON serializable
+  | _ => .error .notSerializable    -- json.dumps: not JSON serializable
 
 /-- `value.to_json()` on Duration / ConfigMemory / EnumScalarType instances -/
 def scalarToJson : Scalar → Except Err JV
@@ -749,9 +751,24 @@ def toJsonEntry (sp : Spec) (kv : String × SV) : Except Err (String × JV) :=
     | .ok j => .ok (kv.1, JV.obj [("name", .str kv.1), ("source", .str kv.2.source),
                                    ("scope", .str kv.2.scope.name), ("value", j)])
 
-/-- `to_json_obj` / `to_json` up to `json.dumps`: the dict as a `JV` tree -/
+/-- the first error raised while `to_json_obj` builds the dict (i.e. not by `json.dumps`) -/
+def firstBuildError (sp : Spec) (m : SMap) : Option Err :=
+  m.findSome? fun kv =>
+    match toJsonEntry sp kv with
+    | .error e => if e = .notSerializable then none else some e
+    | .ok _ => none
+
+/-- `to_json_obj` / `to_json` up to `json.dumps`: the dict as a `JV` tree.
+    `json.dumps` runs after the whole dict has been built, so its TypeError
+    loses against a build-time error of any entry. -/
 def toJson (sp : Spec) (m : SMap) : Except Err JV :=
-  (mapE (toJsonEntry sp) m).map .obj
+  match mapE (toJsonEntry sp) m with
+  | .ok es => .ok (.obj es)
+  | .error .notSerializable =>
+    match firstBuildError sp m with
+    | some e => .error e
+    | none => .error .notSerializable
+  | .error e => .error e
 
 def jget (kvs : List (String × JV)) (k : String) : Option JV := (kvs.find? (·.1 == k)).map (·.2)
 
